@@ -16,7 +16,7 @@ DELAYS = [0, 1, 2, 0.5, 1, 0.1, 0.2, 0.3]
 
 
 def outcome_of(ev):
-    return ("ok", ev._value) if ev._ok else kdsl.exc_out(ev._value)
+    return kdsl.ev_outcome(ev)
 
 
 def depth(hev):
